@@ -27,6 +27,11 @@ func (tw *templateWriter) Write(b []byte) (int, error) {
 	if tw.err != nil {
 		return 0, tw.err
 	}
+	if len(b) == 0 {
+		// (nothing to hand on: the buffered variants never call the caller's writer
+		// without bytes either, so a writer that fails every call fails both alike)
+		return 0, nil
+	}
 	n, err := tw.w.Write(b)
 	if err == nil && n < len(b) {
 		err = io.ErrShortWrite
